@@ -584,7 +584,7 @@ def run_shard(desc: dict, col) -> None:  # noqa: ANN001
     for i, case in enumerate(all_cases(desc["tier"], desc["seed"])):
         if i % desc["of"] == desc["shard"]:
             guarded(col, case, judge, case, col)
-            if col.violation_count >= 8:
+            if getattr(col, "unclassified_count", 0) >= 8:
                 break
 
 
